@@ -137,6 +137,13 @@ def mutants(cfg, rng):
     return res
 
 
+def kw_confusion(x, y):
+    """HashEnc!KwConfusion: an environment variable named like the overrides keyword on one side,
+    an override whose value is that keyword on the other (known finding F22)."""
+    kw = "__env_overrides__"
+    return (kw in x["env"] and kw in y["ovr"].values()) or (kw in y["env"] and kw in x["ovr"].values())
+
+
 def b(s):
     return list(s.encode())
 
@@ -405,7 +412,7 @@ def main(argv=None):
                 same_digest = e["digest"] == base["digest"]
                 if same_digest != same_stream:
                     report.add_violation("digest_equality_differs_from_stream_equality", e["what"], {"config": repr(e["cfg"])[:2000]}, tid=f"v{i}")
-                elif same_digest and e["what"] == "f22_witness":
+                elif same_digest and (e["what"] == "f22_witness" or (e["kind"] == "inp" and kw_confusion(base["cfg"], e["cfg"]))):
                     f22 += 1
                 elif same_digest:
                     report.add_violation("configurations_share_a_digest", json.dumps({"differs_in": e["what"], "kind": e["kind"]}),
